@@ -303,3 +303,104 @@ def run_check(prop, tier, master, n_runs=None, budget_s=None):
         "slack convention as the property states: objective-space shift for hyper-rectangles, per-facet allowance for ellipsoids",
     ]
     core.finish(prop, tier, master, t0, coverage, out_viol, err_a + err_b, assumptions, vacuity)
+
+
+# ---------------------------------------------------------------------------------------------
+# C11 auxiliary: direct seeded workload for the pessimistic rectangle comparison.  There is no
+# fault seam in this predicate; this is declared input generation that widens the run-reached
+# pairs (degenerate edges, equal coordinates, dyadic data, K_f > m cones).
+# ---------------------------------------------------------------------------------------------
+def c11_direct_worker(task):
+    from vopy.confidence_region import confidence_region_check_dominates
+
+    from . import env as E
+    from .runner import BAND_PDOM, cone_tag
+
+    family, index, master, calls = task
+    seed = run_seed(master, family, index)
+    rng = np.random.default_rng(seed)
+    stats = Counter()
+    viol = []
+    classes = set()
+    log = core.EventLog()
+    for c in range(calls):
+        spec = gen_cone_spec(rng)
+        order = E.build_order(spec)
+        W = np.array(order.ordering_cone.W, float)
+        dyadic = bool(O._is_nice(W) and rng.random() < 0.5) or rng.random() < 0.2
+        d1, d2, _ = gen_pair(rng, W, True, dyadic)
+        if rng.random() < 0.3:
+            # stack region 2 below region 1 along a cone-interior direction (the interesting zone)
+            v = np.linalg.lstsq(W, np.ones(W.shape[0]), rcond=None)[0]
+            w1 = np.asarray(d1["upper"]) - np.asarray(d1["lower"])
+            sh = v / np.linalg.norm(v) * float(np.linalg.norm(w1) + 1e-12) * float(rng.uniform(0.2, 3.0))
+            w2 = (np.asarray(d2["upper"]) - np.asarray(d2["lower"])) * float(rng.choice([0.3, 1.0, 3.0]))
+            c2 = (np.asarray(d1["upper"]) + np.asarray(d1["lower"])) / 2 - sh
+            d2 = {"lower": c2 - w2 / 2, "upper": c2 + w2 / 2}
+        r1, r2 = build_region(d1), build_region(d2)
+        try:
+            got = bool(confidence_region_check_dominates(order, r1, r2))
+        except Exception as e:
+            viol.append({"signature": f"C11:exception-escaped:direct:{cone_tag(spec)}", "case": core.to_jsonable({"cone": spec, "region1": d1, "region2": d2}), "outcome": {"exc": repr(e)[:200]}, "seed": seed})
+            continue
+        jd = O.rect_check_dominates(W, O.snapshot_region(r1), O.snapshot_region(r2))
+        d = O.decide(jd, *BAND_PDOM)
+        log.add("pdom", got=got, margin=[jd.lo, jd.hi])
+        two = W.shape == (2, 2)
+        if d is None:
+            stats["undecided"] += 1
+            continue
+        classes.add((W.shape, bool(d), got, "deg" if np.any(np.asarray(d1["upper"]) == np.asarray(d1["lower"])) else "full"))
+        if got and not d:
+            stats["unsound"] += 1
+            viol.append({"signature": f"C11:unsound-true:direct:{cone_tag(spec)}", "case": core.to_jsonable({"cone": spec, "region1": d1, "region2": d2}), "outcome": {"said": got, "margin": [jd.lo, jd.hi]}, "seed": seed})
+        elif (not got) and d and two:
+            stats["incomplete-2x2"] += 1
+            viol.append({"signature": f"C11:incomplete-2x2:direct:{cone_tag(spec)}", "case": core.to_jsonable({"cone": spec, "region1": d1, "region2": d2}), "outcome": {"said": got, "margin": [jd.lo, jd.hi]}, "seed": seed})
+        elif (not got) and d:
+            stats["incomplete-non2x2(allowed)"] += 1
+        else:
+            stats["ok:" + ("T" if d else "F") + (":2x2" if two else "")] += 1
+    return {"index": index, "stats": dict(stats), "viol": viol, "classes": sorted(map(repr, classes)), "calls": calls, "digest": log.digest()}
+
+
+def c11_direct(tier, master, budget_s):
+    n = 32 if tier == "quick" else 640
+    tasks = [(f"C11-{tier}-direct", i, master, 150) for i in range(n)]
+    res, errors, skipped = core.run_pool(c11_direct_worker, tasks, cap_s=600, budget_s=budget_s)
+    stats = Counter()
+    classes = set()
+    viol = {}
+    for r in res:
+        stats.update(r["stats"])
+        classes.update(r["classes"])
+        for v in r["viol"]:
+            viol.setdefault(v["signature"], []).append(v)
+    out = []
+    for sig, lst in sorted(viol.items()):
+        v = lst[0]
+        path = core.write_replay("C11", v["seed"], sig, {"kind": "pdom-call", "case": v["case"], "outcome": v["outcome"]})
+        out.append({"signature": sig, "replay": path, "what": json.dumps(v["outcome"], default=str)[:300], "count": len(lst)})
+    return {"calls": sum(r["calls"] for r in res), "verdicts": dict(stats), "distinct_decided_classes": len(classes), "note": "declared seeded input generation (no fault seam in this predicate); widens the run-reached rectangle pairs"}, out, errors, len(classes)
+
+
+def replay_pdom(body) -> int:
+    from vopy.confidence_region import confidence_region_check_dominates
+
+    from . import env as E
+    from .runner import BAND_PDOM
+
+    case = body["case"]
+    order = E.build_order(case["cone"])
+    W = np.array(order.ordering_cone.W, float)
+    r1, r2 = build_region(case["region1"]), build_region(case["region2"])
+    try:
+        got = bool(confidence_region_check_dominates(order, r1, r2))
+    except Exception as e:
+        print("REPLAY: exception", repr(e)[:200])
+        return 1
+    jd = O.rect_check_dominates(W, O.snapshot_region(r1), O.snapshot_region(r2))
+    d = O.decide(jd, *BAND_PDOM)
+    print(f"REPLAY: check_dominates said {got}; oracle margin [{jd.lo}, {jd.hi}] -> {d}")
+    bad = (got and d is False) or ((not got) and d is True and W.shape == (2, 2))
+    return 1 if bad else 0
